@@ -162,10 +162,12 @@ var zListLensQuick = []int{0, 1, 2, 3, 7, 8, 9, 15, 16, 17, 31, 32, 255, 256, 25
 
 func zListLen() int {
 	if vTier() == 1 {
-		// every length 0..600, and lengths around the decoder's allocation chunk (4096)
-		n := vChoice("len", 604)
-		if n > 600 {
-			return []int{4096, 4097, 8193}[n-601]
+		// thorough: every length 0..300 (all length forms, the 8-bit wrap points 255..264 included), the wrap points of
+		// the next multiple of 256, 600, and lengths around the decoder's allocation chunk (4096)
+		extra := []int{511, 512, 513, 519, 520, 600, 4096, 4097, 8193}
+		n := vChoice("len", 301+len(extra))
+		if n > 300 {
+			return extra[n-301]
 		}
 		return n
 	}
